@@ -2,10 +2,10 @@
 # usage: confirm_seed.sh <prop> <mN>   (reads /tmp/seed-<prop>/<mN>, writes /verif/seeded/<prop>-<mN>/)
 # Confirms in a scratch worktree of /repo HEAD: patch applies, builds, existing suite unchanged, demo fails with / passes without.
 set -u
-prop=$1; m=$2
-src=/tmp/seed-$prop/$m
-wt=/tmp/confirm-$prop-$m
-out=/verif/seeded/$prop-$m
+prop=$1; m=$2; base=${3:-/tmp/seed-}; label=${4:-}
+src=$base$prop/$m
+wt=/tmp/confirm-$prop-$label$m
+out=/verif/seeded/$prop-$label$m
 export GOFLAGS=-mod=mod GOPROXY=off GOSUMDB=off GOTOOLCHAIN=local
 rm -rf $wt; git -C /repo worktree prune; git -C /repo worktree add -f $wt HEAD >/dev/null 2>&1 || { echo "worktree failed"; exit 9; }
 cd $wt
@@ -31,6 +31,7 @@ PY
 demo_file=$(ls $src | grep -E "_test\.go$" | head -1)
 mkdir -p $(dirname $wt/$demo_path); cp $src/$demo_file $wt/$demo_path
 demo_cmd=${demo_cmd//\/tmp\/wt-$prop/$wt}
+demo_cmd=${demo_cmd//\/tmp\/wt2-$prop/$wt}
 ( cd $wt && eval "$demo_cmd" ) > $wt.demo_with 2>&1; with=$?
 git checkout -- . ; # revert patch, keep demo (untracked)
 ( cd $wt && eval "$demo_cmd" ) > $wt.demo_without 2>&1; without=$?
@@ -43,7 +44,7 @@ m.update({"confirmed": {"patch_applies_to_repo_head": True, "go_build": "ok", "e
 json.dump(m, open("$out/meta.json","w"), indent=1)
 PY
   rm -f $out/meta.orig.json
-  echo "$prop-$m: CONFIRMED"
+  echo "$prop-$label$m: CONFIRMED"
 else
   echo "$prop-$m: DEMO NOT DISCRIMINATING (with=$with without=$without)"; tail -5 $wt.demo_with; tail -5 $wt.demo_without
 fi
